@@ -7,7 +7,7 @@ from .. import boot  # noqa: F401
 from .. import world as W
 from ..corpus import corpus, corpus_tree, corpus_users
 from ..drive import Drive
-from ..runner import sig_of
+from ..runner import sig_of, rearm
 
 PROPERTY = "C12"
 LEVEL = "fault_enumeration"
@@ -127,6 +127,7 @@ async def execute(net, hyg, plan):
 
 
 def run_plan(plan):
+    rearm()
     async def main(net, hyg):
         return await execute(net, hyg, plan)
     res, info = W.run(main, seed=plan.get("seed", 0),
